@@ -284,7 +284,7 @@ Eval(e, w) == EvalE(e, w)
 (***************************************************************************)
 EmptyWorld(val, cont, mem) ==
   [env |-> <<>>, val |-> val, cont |-> cont, mem |-> mem, memN |-> <<>>, info |-> <<>>, ents |-> <<>>, enables |-> <<>>,
-   named |-> <<>>, order |-> <<>>, undef |-> FALSE, ncell |-> 0, funs |-> <<>>, ret |-> VInt(0), files |-> <<>>, done |-> {}]
+   named |-> <<>>, order |-> <<>>, undef |-> FALSE, ncell |-> 0, funs |-> <<>>, ret |-> VInt(0), files |-> <<>>, done |-> {}, decl |-> <<>>]
 Bind(env, n, v) == (n :> v) @@ env      \* @@ prefers the left operand: inner definitions shadow
 SetEnv(w, n, v) == [w EXCEPT !.env = Bind(w.env, n, v)]
 MarkUndef(w, v) == IF v.kind = "err" THEN [w EXCEPT !.undef = TRUE] ELSE w
@@ -379,7 +379,7 @@ ExecLoop(s, vals, i, w) ==
            after == Exec(s.body, 1, inner, FALSE)
        IN ExecLoop(s, vals, i + 1, [after EXCEPT !.env = w.env])
 ExecS(s, w, top) ==
-  CASE s.k = "in" -> LET v == VSig(IF s.t = "" THEN "?" ELSE s.t, s.t = "", w.val[s.n]) IN SetEnv(w, s.n, v)
+  CASE s.k = "in" -> LET v == VSig(IF s.t = "" THEN "?" ELSE s.t, s.t = "", w.val[s.n]) IN [SetEnv(w, s.n, v) EXCEPT !.decl = (s.n :> s.dv) @@ w.decl]
     [] s.k = "int" -> LET v == Eval(s.e, w) IN MarkUndef(SetEnv(w, s.n, IF v.kind = "err" THEN v ELSE VInt(v.v)), v)
     [] s.k = "let" ->
          IF s.e.k = "call"
@@ -394,7 +394,10 @@ ExecS(s, w, top) ==
     [] s.k = "mem" -> LET cell == w.ncell + 1 IN
                       [SetEnv(w, s.n, VMem(IF s.t = "" THEN "?" ELSE s.t, s.t = "", cell)) EXCEPT !.ncell = cell]
     [] s.k = "write" -> WriteCell(w, s, w.env[s.m].v)
-    [] s.k = "place" -> LET x == Eval(s.x, w)  y == Eval(s.y, w)
+    [] s.k = "place" -> LET \* a coordinate is a compile-time constant: a declared signal constant contributes its declared value
+                            cw == [w EXCEPT !.val = w.decl @@ w.val]
+                            x == Eval(s.x, [cw EXCEPT !.env = [n \in DOMAIN w.env |-> IF n \in DOMAIN w.decl THEN [w.env[n] EXCEPT !.v = w.decl[n]] ELSE w.env[n]]])
+                            y == Eval(s.y, [cw EXCEPT !.env = [n \in DOMAIN w.env |-> IF n \in DOMAIN w.decl THEN [w.env[n] EXCEPT !.v = w.decl[n]] ELSE w.env[n]]])
                             ent == [n |-> s.n, proto |-> s.proto, x |-> ValOr0(x), y |-> ValOr0(y), props |-> s.props]
                         IN [SetEnv(w, s.n, VEnt(Len(w.ents) + 1)) EXCEPT !.ents = Append(w.ents, ent),
                                                                         !.undef = w.undef \/ x.kind = "err" \/ y.kind = "err"]
